@@ -133,6 +133,53 @@ def _can_fall_through(stmts):
   return True
 
 
+def _no_fall(stmts):
+  """True if control never runs off the end of `stmts` (ends in return / raise on every branch)."""
+  if not stmts:
+    return False
+  last = stmts[-1]
+  if isinstance(last, (ast.Return, ast.Raise)):
+    return True
+  if isinstance(last, ast.If):
+    return bool(last.orelse) and _no_fall(last.body) and _no_fall(last.orelse)
+  return False
+
+
+def _elseify(stmts):
+  """`if c: ...; return x` followed by more statements  ->  if c: ... return x / else: <rest>."""
+  out = []
+  for i, st in enumerate(stmts):
+    if isinstance(st, ast.If):
+      st.body = _elseify(st.body)
+      st.orelse = _elseify(st.orelse)
+      rest = stmts[i + 1:]
+      if rest and _no_fall(st.body) and not (st.orelse and _no_fall(st.orelse)):
+        st.orelse = _elseify(list(st.orelse) + rest)
+        out.append(st)
+        return out
+      if rest and st.orelse and _no_fall(st.orelse) and not _no_fall(st.body):
+        st.body = _elseify(list(st.body) + rest)
+        out.append(st)
+        return out
+    out.append(st)
+  return out
+
+
+def _tail_returns_only(stmts):
+  """Every `return` is in tail position of the (if/else structured) statement list."""
+  def tails(ss):
+    n = 0
+    if not ss:
+      return 0
+    last = ss[-1]
+    if isinstance(last, ast.Return):
+      n += 1
+    elif isinstance(last, ast.If):
+      n += tails(last.body) + tails(last.orelse)
+    return n
+  return tails(stmts) == _count_returns(stmts)
+
+
 def _replace_returns(stmts, make):
   """Replaces `return e` by make(e) (a list of statements), not inside nested defs."""
   out = []
@@ -160,13 +207,28 @@ def _count_returns(stmts):
   return n
 
 
+def _close_fallthrough(stmts, target):
+  """Adds `return None` at the end of every branch that can run off the end."""
+  if not stmts:
+    return [ast.Return(value=ast.Constant(value=None))]
+  last = stmts[-1]
+  if isinstance(last, (ast.Return, ast.Raise)):
+    return stmts
+  if isinstance(last, ast.If) and last.orelse:
+    last.body = _close_fallthrough(last.body, target)
+    last.orelse = _close_fallthrough(last.orelse, target)
+    return stmts
+  return stmts + [ast.Return(value=ast.Constant(value=None))]
+
+
 # ----------------------------------------------------------------------------
 # inlining
 
 
 class Inliner:
 
-  def __init__(self, tree, modname):
+  def __init__(self, tree, modname, skip=()):
+    self.skip = set(skip)
     self.tree = tree
     self.modname = modname
     ref = reference_functions().get(modname)
@@ -179,13 +241,14 @@ class Inliner:
       elif isinstance(st, ast.ClassDef):
         self.methods[st.name] = {m.name: m for m in st.body if isinstance(m, ast.FunctionDef)}
     self.count = 0
+    self._tmp = 0
 
   def is_new(self, qual):
     return self.ref is not None and qual not in self.ref
 
   def _callee(self, call, cls):
     f = call.func
-    if isinstance(f, ast.Name) and f.id in self.funcs:
+    if isinstance(f, ast.Name) and f.id in self.funcs and f.id not in self.skip:
       q = '%s.%s' % (self.modname, f.id)
       if self.is_new(q):
         return self.funcs[f.id], None
@@ -194,6 +257,24 @@ class Inliner:
       if m is not None and self.is_new('%s.%s.%s' % (self.modname, cls.name, f.attr)):
         return m, f.value
     return None, None
+
+  def _nested_helper_call(self, st, cls, owner_fn):
+    """First call to an inlinable new helper that is evaluated unconditionally inside statement st."""
+    roots = [st.value] if getattr(st, 'value', None) is not None else []
+    stack = list(roots)
+    while stack:
+      n = stack.pop(0)
+      if isinstance(n, (ast.Lambda, ast.ListComp, ast.SetComp, ast.DictComp, ast.GeneratorExp, ast.IfExp)):
+        continue
+      if isinstance(n, ast.BoolOp):
+        stack.insert(0, n.values[0])
+        continue
+      if isinstance(n, ast.Call):
+        fn, _s = self._callee(n, cls)
+        if fn is not None and fn is not owner_fn and self._inlinable(fn) and n is not getattr(st, 'value', None):
+          return n
+      stack[0:0] = list(ast.iter_child_nodes(n))
+    return None
 
   def _inlinable(self, fn):
     a = fn.args
@@ -211,7 +292,7 @@ class Inliner:
         return False
     return True
 
-  def _bind(self, fn, call, selfexpr, caller_names):
+  def _bind(self, fn, call, selfexpr, caller_names, free=()):
     a = fn.args
     params = [x.arg for x in a.posonlyargs + a.args]
     is_static = any(ast.unparse(d) == 'staticmethod' for d in fn.decorator_list)
@@ -255,7 +336,7 @@ class Inliner:
     for loc in stored:
       if loc in bound:
         continue
-      if loc in caller_names:
+      if loc in caller_names and loc not in free:
         renames[loc] = loc + '__in'
     return mapping, pre, renames
 
@@ -275,7 +356,15 @@ class Inliner:
     if fn is None or fn is caller_fn or not self._inlinable(fn):
       return None
     caller_names = _all_names(caller_fn) if caller_fn is not None else set()
-    b = self._bind(fn, call, selfexpr, caller_names)
+    # names that the statement overwrites anyway and the call does not read may be reused by the inlined body
+    free = set()
+    if kind == 'assign':
+      tg = st.targets[0]
+      tn = [e for e in (tg.elts if isinstance(tg, (ast.Tuple, ast.List)) else [tg])]
+      if all(isinstance(e, ast.Name) for e in tn):
+        used = {x.id for x in ast.walk(call) if isinstance(x, ast.Name)}
+        free = {e.id for e in tn} - used
+    b = self._bind(fn, call, selfexpr, caller_names, free)
     if b is None:
       return None
     mapping, pre, renames = b
@@ -292,6 +381,15 @@ class Inliner:
       target = st.targets[0] if kind == 'assign' else None
       nret = _count_returns(body)
       single_tail = nret == 0 or (nret == 1 and isinstance(body[-1], ast.Return))
+      if not single_tail:
+        body2 = _elseify(copy.deepcopy(body))
+        if _tail_returns_only(body2):
+          falls = not _no_fall(body2)
+          body = body2
+          single_tail = True
+          if falls and target is not None:
+            # paths that run off the end return None: close them explicitly
+            body = _close_fallthrough(body, target)
 
       def make(value, orig, loop):
         out = []
@@ -305,12 +403,13 @@ class Inliner:
 
       if single_tail:
         body = _replace_returns(body, lambda v, o: make(v, o, False))
-        if nret == 0 and target is not None:
+        if nret == 0 and target is not None and not _no_fall(fn.body):
           body.append(ast.Assign(targets=[copy.deepcopy(target)], value=ast.Constant(value=None)))
         new = pre + (body or [ast.Pass()])
       else:
+        falls = not _no_fall(body)
         body = _replace_returns(body, lambda v, o: make(v, o, True))
-        if _can_fall_through(body):
+        if falls:
           body.extend(make(None, None, True))
         new = pre + [ast.While(test=ast.Constant(value=True), body=body, orelse=[])]
     for s in new:
@@ -346,6 +445,27 @@ class Inliner:
                   body.insert(i, asg)
                   st = asg
             new = self._expand(st, cls, owner_fn)
+            if new is None and isinstance(st, (ast.Return, ast.Assign, ast.Expr, ast.AugAssign)):
+              # a helper call nested in the statement's expression (evaluated unconditionally): hoist it
+              c = self._nested_helper_call(st, cls, owner_fn)
+              if c is not None:
+                fnc = self._callee(c, cls)[0]
+                self._tmp += 1
+                tmpn = '__t_%s%d' % (fnc.name.lstrip('_'), self._tmp)
+                asg = ast.copy_location(ast.Assign(targets=[ast.Name(id=tmpn, ctx=ast.Store())], value=copy.deepcopy(c)), st)
+                ast.fix_missing_locations(asg)
+
+                class Rep(ast.NodeTransformer):
+                  def visit_Call(self, n):
+                    if n is c:
+                      return ast.copy_location(ast.Name(id=tmpn, ctx=ast.Load()), n)
+                    self.generic_visit(n)
+                    return n
+                body[i] = Rep().visit(st)
+                body.insert(i, asg)
+                st = asg
+                new = self._expand(st, cls, owner_fn)
+                changed = True
             if new is not None:
               body[i:i + 1] = new
               changed = True
@@ -354,7 +474,26 @@ class Inliner:
               i += 1
       if not changed:
         break
+    if self.count:
+      self._drop_dead_helpers()
     return self.count
+
+  def _drop_dead_helpers(self):
+    """Private helpers that only existed to be called from where they are now inlined."""
+    for _ in range(3):
+      dropped = False
+      for st in list(self.tree.body):
+        if isinstance(st, ast.FunctionDef) and st.name.startswith('_') and not st.name.startswith('__') \
+            and self.is_new('%s.%s' % (self.modname, st.name)) and not st.decorator_list:
+          own = {id(n) for n in ast.walk(st)}
+          used = any(isinstance(n, ast.Name) and n.id == st.name and id(n) not in own for n in ast.walk(self.tree)) or \
+              any(isinstance(n, ast.Attribute) and n.attr == st.name for n in ast.walk(self.tree))
+          if not used:
+            self.tree.body.remove(st)
+            self.funcs.pop(st.name, None)
+            dropped = True
+      if not dropped:
+        break
 
   def _functions(self):
     out = []
@@ -488,7 +627,622 @@ def _rewrite_setdefault(body_list):
         body_list[i:i + 2] = [new]
         changed += 1
         continue
+      # ... followed by `d[k].method(...)`:  tmp = d.setdefault(k, v); tmp.method(...)
+      if ast.unparse(sub.value) == ast.unparse(d) and ast.unparse(sub.slice) == ast.unparse(k) \
+          and isinstance(b, ast.Expr) and isinstance(b.value, ast.Call) and isinstance(b.value.func, ast.Attribute) \
+          and isinstance(b.value.func.value, ast.Subscript) and ast.unparse(b.value.func.value.value) == ast.unparse(d) \
+          and ast.unparse(b.value.func.value.slice) == ast.unparse(k):
+        tmp = '__sd%d' % getattr(a, 'lineno', 0)
+        call = ast.Call(func=ast.Attribute(value=d, attr='setdefault', ctx=ast.Load()), args=[k, a.body[0].value], keywords=[])
+        new = ast.Assign(targets=[ast.Name(id=tmp, ctx=ast.Store())], value=call)
+        ast.copy_location(new, a)
+        b.value.func.value = ast.Name(id=tmp, ctx=ast.Load())
+        ast.fix_missing_locations(new)
+        ast.fix_missing_locations(b)
+        body_list[i] = new
+        changed += 1
+        continue
     i += 1
+  return changed
+
+
+def _rewrite_tuple_assign(body_list):
+  """`a, b = (x, y)` -> `a = x; b = y` when that is order-safe; drops `a = a`."""
+  changed = 0
+  i = 0
+  while i < len(body_list):
+    st = body_list[i]
+    if isinstance(st, ast.Assign) and len(st.targets) == 1 and isinstance(st.targets[0], ast.Tuple) and isinstance(st.value, ast.Tuple) \
+        and len(st.targets[0].elts) == len(st.value.elts) and all(isinstance(e, ast.Name) for e in st.targets[0].elts) \
+        and not any(isinstance(e, ast.Starred) for e in st.value.elts):
+      tg, vs = st.targets[0].elts, st.value.elts
+      safe = all(tg[a].id not in {x.id for x in ast.walk(vs[b]) if isinstance(x, ast.Name)} for a in range(len(tg)) for b in range(a + 1, len(tg)))
+      if safe:
+        new = []
+        for t, v in zip(tg, vs):
+          if isinstance(v, ast.Name) and v.id == t.id:
+            continue
+          a = ast.Assign(targets=[t], value=v)
+          ast.copy_location(a, st)
+          new.append(a)
+        if not new:
+          new = [ast.copy_location(ast.Pass(), st)]
+        body_list[i:i + 1] = new
+        changed += 1
+        i += len(new)
+        continue
+    if isinstance(st, ast.Assign) and len(st.targets) == 1 and isinstance(st.targets[0], ast.Name) and isinstance(st.value, ast.Name) \
+        and st.targets[0].id == st.value.id and len(body_list) > 1:
+      del body_list[i]
+      changed += 1
+      continue
+    i += 1
+  return changed
+
+
+# ----------------------------------------------------------------------------
+# loop forms
+
+
+def _scoped_bodies(tree):
+  """(enclosing function or None, statement list) for every statement list."""
+  out = []
+
+  def rec(node, fn):
+    for fld in ('body', 'orelse', 'finalbody'):
+      b = getattr(node, fld, None)
+      if isinstance(b, list) and b and isinstance(b[0], ast.stmt):
+        out.append((fn, b))
+        for st in b:
+          rec(st, st if isinstance(st, FN) else fn)
+    for h in getattr(node, 'handlers', []) or []:
+      out.append((fn, h.body))
+      for st in h.body:
+        rec(st, st if isinstance(st, FN) else fn)
+  rec(tree, None)
+  return out
+
+
+def _loads(node, name):
+  return [n for n in ast.walk(node) if isinstance(n, ast.Name) and n.id == name and isinstance(n.ctx, ast.Load)]
+
+
+def _stores(node, name):
+  return [n for n in ast.walk(node) if isinstance(n, ast.Name) and n.id == name and isinstance(n.ctx, (ast.Store, ast.Del))]
+
+
+def _pos(n):
+  return (getattr(n, 'lineno', 0), getattr(n, 'col_offset', 0))
+
+
+def _end(n):
+  return (getattr(n, 'end_lineno', None) or getattr(n, 'lineno', 0), getattr(n, 'end_col_offset', None) or 0)
+
+
+def _used_after(fn, loop, name):
+  """`name` is read after `loop` (lexically later in the function, or anywhere in an enclosing loop)."""
+  scope = fn if fn is not None else None
+  if scope is None:
+    return True
+  e = _end(loop)
+  for n in ast.walk(scope):
+    if isinstance(n, ast.Name) and n.id == name and isinstance(n.ctx, ast.Load) and _pos(n) > e:
+      return True
+  # an enclosing loop can bring control back to code before the loop
+  for n in ast.walk(scope):
+    if isinstance(n, (ast.For, ast.While)) and n is not loop and any(x is loop for x in ast.walk(n)):
+      inside = [x for x in ast.walk(n) if isinstance(x, ast.Name) and x.id == name and isinstance(x.ctx, ast.Load)
+                and not any(x is y for y in ast.walk(loop))]
+      if inside:
+        return True
+  return False
+
+
+def _has_continue(stmts):
+  for st in stmts:
+    if isinstance(st, ast.Continue):
+      return True
+    if isinstance(st, (ast.For, ast.While) + FN + (ast.ClassDef,)):
+      if isinstance(st, (ast.For, ast.While)) and _has_continue(st.orelse):
+        return True
+      continue
+    for fld in ('body', 'orelse', 'finalbody'):
+      if _has_continue(getattr(st, fld, []) or []):
+        return True
+    for h in getattr(st, 'handlers', []) or []:
+      if _has_continue(h.body):
+        return True
+  return False
+
+
+def _is_step(st, name, op):
+  return isinstance(st, ast.AugAssign) and isinstance(st.target, ast.Name) and st.target.id == name and isinstance(st.op, op) \
+      and isinstance(st.value, ast.Constant) and st.value.value == 1
+
+
+def _len_of(e):
+  if isinstance(e, ast.Call) and isinstance(e.func, ast.Name) and e.func.id == 'len' and len(e.args) == 1 and not e.keywords:
+    return e.args[0]
+  return None
+
+
+def _rewrite_index_while(fn, body_list):
+  """Counting `while` loops back to `for`:
+       i = 0;  while i < len(X): [T = X[i]] ... i += 1      ->  for T in X: ...
+       i = len(X) - 1;  while i >= 0: ... X[i] ...; i -= 1   ->  for T in reversed(X): ...
+       i = len(X);  while i > 0: i -= 1; ... X[i] ...        ->  for T in reversed(X): ...
+       i = A;  while i < B: ... i += 1                       ->  for i in range(A, B): ...
+  """
+  changed = 0
+  k = 0
+  while k + 1 < len(body_list):
+    a, w = body_list[k], body_list[k + 1]
+    k += 1
+    if not (isinstance(a, ast.Assign) and len(a.targets) == 1 and isinstance(a.targets[0], ast.Name) and isinstance(w, ast.While)
+            and isinstance(w.test, ast.Compare) and len(w.test.ops) == 1 and isinstance(w.test.left, ast.Name)
+            and w.test.left.id == a.targets[0].id):
+      continue
+    i = a.targets[0].id
+    op, bound = w.test.ops[0], w.test.comparators[0]
+    body = w.body
+    steps_up = [x for x in body if _is_step(x, i, ast.Add)]
+    steps_dn = [x for x in body if _is_step(x, i, ast.Sub)]
+    nstores = sum(len(_stores(x, i)) for x in body)
+    if nstores != 1 or len(steps_up) + len(steps_dn) != 1:
+      continue
+    step = (steps_up or steps_dn)[0]
+    p = body.index(step)
+    rest = body[:p] + body[p + 1:]
+    if fn is None or _used_after(fn, w, i):
+      continue
+    # names of the bound must not be re-bound in the body
+    if any(_stores(x, n) for x in body for n in _all_names(bound)):
+      continue
+    if p == len(body) - 1 and _has_continue(rest):
+      continue          # `continue` would skip the increment
+    loads_before = [n for x in body[:p] for n in _loads(x, i)]
+    loads_after = [n for x in body[p + 1:] for n in _loads(x, i)]
+    X = None
+    new = None
+    up = bool(steps_up)
+
+    def subscripts_only(stmts, X):
+      """every load of i in stmts is `X[i]`"""
+      cnt = 0
+      for x in stmts:
+        for n in ast.walk(x):
+          if isinstance(n, ast.Subscript) and isinstance(n.slice, ast.Name) and n.slice.id == i and ast.unparse(n.value) == ast.unparse(X) \
+              and isinstance(n.ctx, ast.Load):
+            cnt += 1
+      return cnt == sum(len(_loads(x, i)) for x in stmts)
+
+    def foreach(X, stmts, rev):
+      it = X if not rev else ast.Call(func=ast.Name(id='reversed', ctx=ast.Load()), args=[X], keywords=[])
+      first = stmts[0] if stmts else None
+      if isinstance(first, ast.Assign) and len(first.targets) == 1 and isinstance(first.value, ast.Subscript) \
+          and isinstance(first.value.slice, ast.Name) and first.value.slice.id == i and ast.unparse(first.value.value) == ast.unparse(X) \
+          and not any(_loads(x, i) for x in stmts[1:]) and isinstance(first.targets[0], (ast.Name, ast.Tuple)):
+        tgt = first.targets[0]
+        nb = stmts[1:] or [ast.Pass()]
+      else:
+        nm = '__e_%s' % i
+        tgt = ast.Name(id=nm, ctx=ast.Store())
+
+        class R(ast.NodeTransformer):
+          def visit_Subscript(self, n):
+            self.generic_visit(n)
+            if isinstance(n.slice, ast.Name) and n.slice.id == i and ast.unparse(n.value) == ast.unparse(X) and isinstance(n.ctx, ast.Load):
+              return ast.copy_location(ast.Name(id=nm, ctx=ast.Load()), n)
+            return n
+        nb = [R().visit(x) for x in stmts] or [ast.Pass()]
+      return ast.For(target=tgt, iter=it, body=nb, orelse=w.orelse)
+
+    init = a.value
+    # the sequence must not be re-bound in the loop
+    if up and isinstance(op, ast.Lt) and _len_of(bound) is not None and isinstance(init, ast.Constant) and init.value == 0:
+      X = _len_of(bound)
+      # loads of i must come before the increment (or the increment is last)
+      if (p == len(body) - 1 or not loads_after) and subscripts_only(rest, X) and (loads_before or loads_after):
+        new = foreach(X, rest, False)
+    if new is None and not up and isinstance(op, (ast.GtE,)) and isinstance(bound, ast.Constant) and bound.value == 0 \
+        and isinstance(init, ast.BinOp) and isinstance(init.op, ast.Sub) and _len_of(init.left) is not None \
+        and isinstance(init.right, ast.Constant) and init.right.value == 1 and p == len(body) - 1:
+      X = _len_of(init.left)
+      if subscripts_only(rest, X) and not any(_stores(x, n) for x in body for n in _all_names(X)):
+        new = foreach(X, rest, True)
+    if new is None and not up and isinstance(op, ast.Gt) and isinstance(bound, ast.Constant) and bound.value == 0 \
+        and _len_of(init) is not None and p == 0:
+      X = _len_of(init)
+      if subscripts_only(rest, X) and not any(_stores(x, n) for x in body for n in _all_names(X)):
+        new = foreach(X, rest, True)
+    if new is None and up and isinstance(op, (ast.Lt, ast.LtE)) and p == len(body) - 1:
+      hi = bound if isinstance(op, ast.Lt) else ast.BinOp(left=bound, op=ast.Add(), right=ast.Constant(value=1))
+      args = [hi] if (isinstance(init, ast.Constant) and init.value == 0) else [init, hi]
+      new = ast.For(target=ast.Name(id=i, ctx=ast.Store()), iter=ast.Call(func=ast.Name(id='range', ctx=ast.Load()), args=args, keywords=[]),
+                    body=rest or [ast.Pass()], orelse=w.orelse)
+    if new is None:
+      continue
+    ast.copy_location(new, w)
+    ast.fix_missing_locations(new)
+    k -= 1
+    body_list[k:k + 2] = [new]
+    changed += 1
+  return changed
+
+
+def _rewrite_append_loop(fn, body_list):
+  """X = []; for T in IT: [if c:] X.append(E)   ->   X = [E for T in IT [if c]]   (also set()/add)."""
+  changed = 0
+  k = 0
+  while k + 1 < len(body_list):
+    a, lp = body_list[k], body_list[k + 1]
+    k += 1
+    if not (isinstance(a, ast.Assign) and len(a.targets) == 1 and isinstance(a.targets[0], ast.Name) and isinstance(lp, ast.For)
+            and not lp.orelse and len(lp.body) == 1):
+      continue
+    X = a.targets[0].id
+    is_list = isinstance(a.value, ast.List) and not a.value.elts
+    is_set = isinstance(a.value, ast.Call) and ast.unparse(a.value) == 'set()'
+    if not (is_list or is_set):
+      continue
+    inner = lp.body[0]
+    conds = []
+    while isinstance(inner, ast.If) and not inner.orelse and len(inner.body) == 1:
+      conds.append(inner.test)
+      inner = inner.body[0]
+    if not (isinstance(inner, ast.Expr) and isinstance(inner.value, ast.Call) and isinstance(inner.value.func, ast.Attribute)
+            and isinstance(inner.value.func.value, ast.Name) and inner.value.func.value.id == X
+            and inner.value.func.attr == ('append' if is_list else 'add') and len(inner.value.args) == 1 and not inner.value.keywords):
+      continue
+    E = inner.value.args[0]
+    if X in _all_names(lp.iter) or X in _all_names(E) or any(X in _all_names(c) for c in conds):
+      continue
+    tnames = {n.id for n in ast.walk(lp.target) if isinstance(n, ast.Name)}
+    if fn is None or any(_used_after(fn, lp, t) for t in tnames):
+      continue
+    gen = ast.comprehension(target=lp.target, iter=lp.iter, ifs=conds, is_async=0)
+    comp = (ast.ListComp if is_list else ast.SetComp)(elt=E, generators=[gen])
+    new = ast.Assign(targets=a.targets, value=comp)
+    ast.copy_location(new, a)
+    ast.fix_missing_locations(new)
+    k -= 1
+    body_list[k:k + 2] = [new]
+    changed += 1
+  return changed
+
+
+def _thread_flags(fn, body_list):
+  """if c: A; t = True  else: B; t = False  ;  if t: X        ->   if c: A; X  else: B
+  for a flag t that is read only by that test."""
+  changed = 0
+  k = 0
+  while k + 1 < len(body_list):
+    a, b = body_list[k], body_list[k + 1]
+    k += 1
+    if not (isinstance(a, ast.If) and isinstance(b, ast.If)):
+      continue
+    neg = isinstance(b.test, ast.UnaryOp) and isinstance(b.test.op, ast.Not)
+    tn = b.test.operand if neg else b.test
+    if not isinstance(tn, ast.Name) or fn is None:
+      continue
+    t = tn.id
+    if len(_loads(fn, t)) != 1:
+      continue
+
+    def ok(stmts):
+      if not stmts:
+        return False
+      last = stmts[-1]
+      if isinstance(last, (ast.Raise, ast.Return, ast.Continue, ast.Break)):
+        return not any(_stores(x, t) for x in stmts)
+      if isinstance(last, ast.Assign) and len(last.targets) == 1 and isinstance(last.targets[0], ast.Name) and last.targets[0].id == t \
+          and isinstance(last.value, ast.Constant) and isinstance(last.value.value, bool):
+        return not any(_stores(x, t) for x in stmts[:-1])
+      if isinstance(last, ast.If) and last.orelse:
+        return not any(_stores(x, t) for x in stmts[:-1]) and ok(last.body) and ok(last.orelse)
+      return False
+
+    if not (a.orelse and ok(a.body) and ok(a.orelse)):
+      continue
+
+    def push(stmts):
+      last = stmts[-1]
+      if isinstance(last, ast.Assign):
+        v = last.value.value
+        taken = b.body if (v != neg) else b.orelse
+        stmts[-1:] = copy.deepcopy(taken) or [ast.copy_location(ast.Pass(), last)]
+      elif isinstance(last, ast.If):
+        push(last.body)
+        push(last.orelse)
+    push(a.body)
+    push(a.orelse)
+    k -= 1
+    del body_list[k + 1]
+    ast.fix_missing_locations(a)
+    changed += 1
+  return changed
+
+
+def loop_forms(tree):
+  n = 0
+  for _ in range(3):
+    c = 0
+    for fn, body in _scoped_bodies(tree):
+      c += _rewrite_index_while(fn, body)
+      c += _rewrite_append_loop(fn, body)
+      c += _thread_flags(fn, body)
+    n += c
+    if not c:
+      break
+  return n
+
+
+# ----------------------------------------------------------------------------
+# temporaries that do not exist on the reference tree
+
+
+_PURE_FUNCS = {'len', 'isinstance', 'issubclass', 'tuple', 'list', 'set', 'frozenset', 'bool', 'str', 'int', 'sorted', 'min', 'max',
+               'any', 'all', 'type', 'repr', 'callable', 'hasattr', 'getattr', 'dict', 'enumerate', 'zip', 'range', 'reversed'}
+_PURE_METHODS = {'get', 'keys', 'values', 'items', 'split', 'rsplit', 'partition', 'rpartition', 'startswith', 'endswith', 'join',
+                 'strip', 'lstrip', 'rstrip', 'format', 'lower', 'upper', 'count', 'index', 'find', 'rfind', 'copy', 'match',
+                 'search', 'fullmatch', 'replace', 'isidentifier'}
+_MUTATORS = {'update', 'setdefault', 'clear', 'pop', 'popitem', 'append', 'add', 'extend', 'insert', 'remove', 'discard', 'sort', 'reverse'}
+
+
+def _pure(e):
+  for n in ast.walk(e):
+    if isinstance(n, (ast.Yield, ast.YieldFrom, ast.Await, ast.NamedExpr, ast.Lambda)):
+      return False
+    if isinstance(n, ast.Call):
+      f = n.func
+      if isinstance(f, ast.Name) and f.id in _PURE_FUNCS:
+        continue
+      if isinstance(f, ast.Attribute) and f.attr in _PURE_METHODS:
+        continue
+      return False
+  return True
+
+
+def _own_walk(fn):
+  """Nodes of fn's own scope, comprehension interiors included, nested defs / lambdas not."""
+  stack = list(fn.body)
+  while stack:
+    n = stack.pop()
+    yield n
+    if isinstance(n, FN + (ast.ClassDef, ast.Lambda)):
+      continue
+    stack.extend(ast.iter_child_nodes(n))
+
+
+def _nested_scopes(fn):
+  for n in ast.walk(fn):
+    if n is not fn and isinstance(n, FN + (ast.ClassDef, ast.Lambda)):
+      yield n
+
+
+def _writes_to(st, names):
+  """st (whole subtree) re-binds or mutates one of `names`."""
+  for n in ast.walk(st):
+    if isinstance(n, ast.Name) and n.id in names and isinstance(n.ctx, (ast.Store, ast.Del)):
+      return True
+    if isinstance(n, (ast.Subscript, ast.Attribute)) and isinstance(n.ctx, (ast.Store, ast.Del)):
+      r = n
+      while isinstance(r, (ast.Subscript, ast.Attribute)):
+        r = r.value
+      if isinstance(r, ast.Name) and r.id in names:
+        return True
+    if isinstance(n, ast.Call) and isinstance(n.func, ast.Attribute) and n.func.attr in _MUTATORS:
+      r = n.func.value
+      while isinstance(r, (ast.Subscript, ast.Attribute)):
+        r = r.value
+      if isinstance(r, ast.Name) and r.id in names:
+        return True
+  return False
+
+
+def _header_nodes(st):
+  """The parts of a statement evaluated once when the statement is reached."""
+  if isinstance(st, ast.If):
+    return [st.test]
+  if isinstance(st, ast.For):
+    return [st.iter]
+  if isinstance(st, ast.With):
+    return [it.context_expr for it in st.items]
+  if isinstance(st, (ast.Expr, ast.Assign, ast.AugAssign, ast.AnnAssign, ast.Return, ast.Raise, ast.Assert, ast.Delete)):
+    return [st]
+  return []
+
+
+def inline_temps(tree, modname, table=None):
+  """Substitutes local temporaries that the reference tree does not have
+  (`t = E` with a single binding) into their uses, when that cannot change what is computed:
+    A  one use, in the header of the very next statement; or
+    B  E is pure and nothing it mentions is re-bound or mutated between the
+       definition and the last use (all uses lexically after the definition, in the same block)."""
+  if table is None:
+    try:
+      with open(TABLE) as f:
+        table = json.load(f)
+    except Exception:
+      return 0
+  ref_mod = table.get(modname)
+  if not ref_mod:
+    return 0
+  from .canon import _functions, _params
+  total = 0
+  for q, fn in _functions(tree, modname):
+    ref = ref_mod.get(q)
+    if ref is None:
+      continue
+    refnames = {n for n, _ in ref}
+    for _round in range(6):
+      if not _inline_one(fn, refnames, set(_params(fn))):
+        break
+      total += 1
+  return total
+
+
+def _inline_one(fn, refnames, params):
+  own = list(_own_walk(fn))
+  store_count = {}
+  for n in own:
+    if isinstance(n, ast.Name) and isinstance(n.ctx, (ast.Store, ast.Del)):
+      store_count[n.id] = store_count.get(n.id, 0) + 1
+    elif isinstance(n, ast.ExceptHandler) and n.name:
+      store_count[n.name] = store_count.get(n.name, 0) + 2
+    elif isinstance(n, (ast.Global, ast.Nonlocal)):
+      for x in n.names:
+        store_count[x] = store_count.get(x, 0) + 2
+  nested_names = set()
+  for sc in _nested_scopes(fn):
+    nested_names |= _all_names(sc)
+  comp_targets = set()
+  for n in own:
+    if isinstance(n, ast.comprehension):
+      comp_targets |= {x.id for x in ast.walk(n.target) if isinstance(x, ast.Name)}
+  for _fn, body in _scoped_bodies(fn):
+    if _fn is not None and _fn is not fn:
+      continue
+    for k, st in enumerate(body):
+      if not (isinstance(st, ast.Assign) and len(st.targets) == 1 and isinstance(st.targets[0], ast.Name)):
+        continue
+      t = st.targets[0].id
+      if t in refnames or t in params or t.startswith('__') or store_count.get(t, 0) != 1 or t in nested_names:
+        continue
+      # comprehension targets are counted as stores by ast (Store ctx): a clash means shadowing
+      if t in comp_targets:
+        continue
+      E = st.value
+      loads = [n for n in own if isinstance(n, ast.Name) and n.id == t and isinstance(n.ctx, ast.Load)]
+      if not loads:
+        continue
+      after = body[k + 1:]
+      in_after = [n for x in after for n in ast.walk(x) if isinstance(n, ast.Name) and n.id == t and isinstance(n.ctx, ast.Load)]
+      if len(in_after) != len(loads):
+        continue
+      mode = None
+      if len(loads) == 1 and after:
+        hdr = _header_nodes(after[0])
+        if any(loads[0] is n for h in hdr for n in ast.walk(h)):
+          mode = 'A'
+      if mode is None and _pure(E):
+        last = max(i for i, x in enumerate(after) if any(n in loads for n in ast.walk(x)))
+        span = after[:last + 1]
+        names = _all_names(E)
+        if not any(_writes_to(x, names) for x in span):
+          # calls in between may change attributes / containers E reads
+          deep = any(isinstance(n, (ast.Attribute, ast.Subscript, ast.Call)) for n in ast.walk(E))
+          has_attr = any(isinstance(n, ast.Attribute) and not (isinstance(getattr(n, 'ctx', None), ast.Load) and False) for n in ast.walk(E)
+                         if not (isinstance(n, ast.Attribute) and n.attr in _PURE_METHODS))
+          impure = [n for x in span[:last] for n in ast.walk(x) if isinstance(n, ast.Call) and not _pure(n)]
+          if has_attr:
+            blocked = bool(impure)
+          else:
+            # a call can only change what E reads if it is handed one of the objects E mentions
+            blocked = any(names & _all_names(c) for c in impure)
+          if not deep or not blocked:
+            mode = 'B'
+      if mode is None:
+        continue
+
+      class Sub(ast.NodeTransformer):
+        def visit_Name(self, n):
+          if n.id == t and isinstance(n.ctx, ast.Load):
+            return ast.copy_location(copy.deepcopy(E), n)
+          return n
+      for i in range(k + 1, len(body)):
+        body[i] = Sub().visit(body[i])
+      del body[k]
+      if not body:
+        body.append(ast.Pass())
+      ast.fix_missing_locations(fn)
+      return True
+  return False
+
+
+_BOOL_FUNCS = {'bool', 'all', 'any', 'isinstance', 'issubclass', 'hasattr', 'callable'}
+_BOOL_METHODS = {'startswith', 'endswith', 'isidentifier', 'isdigit', 'isalpha', 'isalnum', 'isspace', 'issubset', 'issuperset'}
+
+
+def _is_boolean(e):
+  if isinstance(e, ast.Compare):
+    return True
+  if isinstance(e, ast.Constant) and isinstance(e.value, bool):
+    return True
+  if isinstance(e, ast.UnaryOp) and isinstance(e.op, ast.Not):
+    return True
+  if isinstance(e, ast.BoolOp):
+    return all(_is_boolean(v) for v in e.values)
+  if isinstance(e, ast.Call):
+    if isinstance(e.func, ast.Name) and e.func.id in _BOOL_FUNCS:
+      return True
+    if isinstance(e.func, ast.Attribute) and e.func.attr in _BOOL_METHODS:
+      return True
+  return False
+
+
+def _rewrite_flag_chain(body_list):
+  """v = A; v &= B; v |= C   ->   v = (A and B) or C     (all operands boolean and pure)."""
+  changed = 0
+  k = 0
+  while k + 1 < len(body_list):
+    a = body_list[k]
+    k += 1
+    if not (isinstance(a, ast.Assign) and len(a.targets) == 1 and isinstance(a.targets[0], ast.Name) and _is_boolean(a.value) and _pure(a.value)):
+      continue
+    v = a.targets[0].id
+    j = k
+    expr = a.value
+    while j < len(body_list):
+      b = body_list[j]
+      if isinstance(b, ast.AugAssign) and isinstance(b.target, ast.Name) and b.target.id == v and isinstance(b.op, (ast.BitAnd, ast.BitOr)) \
+          and _is_boolean(b.value) and _pure(b.value) and v not in _all_names(b.value):
+        op = ast.And() if isinstance(b.op, ast.BitAnd) else ast.Or()
+        if isinstance(expr, ast.BoolOp) and type(expr.op) is type(op) and expr is not a.value:
+          expr.values.append(b.value)
+        else:
+          expr = ast.BoolOp(op=op, values=[expr, b.value])
+        j += 1
+      else:
+        break
+    if j == k:
+      continue
+    a.value = expr
+    ast.fix_missing_locations(a)
+    del body_list[k:j]
+    changed += 1
+  return changed
+
+
+def _rewrite_or_default(body_list):
+  """`if not X: X = E`  /  `X = X if X else E`  ->  `X = X or E`."""
+  changed = 0
+  for i, st in enumerate(body_list):
+    if isinstance(st, ast.If) and not st.orelse and len(st.body) == 1 and isinstance(st.test, ast.UnaryOp) and isinstance(st.test.op, ast.Not) \
+        and isinstance(st.test.operand, ast.Name) and isinstance(st.body[0], ast.Assign) and len(st.body[0].targets) == 1 \
+        and isinstance(st.body[0].targets[0], ast.Name) and st.body[0].targets[0].id == st.test.operand.id:
+      x = st.test.operand.id
+      if x in _all_names(st.body[0].value):
+        continue
+      new = ast.Assign(targets=[ast.Name(id=x, ctx=ast.Store())],
+                       value=ast.BoolOp(op=ast.Or(), values=[ast.Name(id=x, ctx=ast.Load()), st.body[0].value]))
+      ast.copy_location(new, st)
+      ast.fix_missing_locations(new)
+      body_list[i] = new
+      changed += 1
+    elif isinstance(st, ast.Assign) and len(st.targets) == 1 and isinstance(st.targets[0], ast.Name) and isinstance(st.value, ast.IfExp):
+      x = st.targets[0].id
+      v = st.value
+      e = None
+      if isinstance(v.test, ast.Name) and v.test.id == x and isinstance(v.body, ast.Name) and v.body.id == x:
+        e = v.orelse
+      elif isinstance(v.test, ast.UnaryOp) and isinstance(v.test.op, ast.Not) and isinstance(v.test.operand, ast.Name) and v.test.operand.id == x \
+          and isinstance(v.orelse, ast.Name) and v.orelse.id == x:
+        e = v.body
+      if e is not None and x not in _all_names(e):
+        st.value = ast.BoolOp(op=ast.Or(), values=[ast.Name(id=x, ctx=ast.Load()), e])
+        ast.fix_missing_locations(st)
+        changed += 1
   return changed
 
 
@@ -501,17 +1255,246 @@ def idioms(tree):
       c += _rewrite_acquire(body)
       c += _rewrite_dict_merge(body)
       c += _rewrite_setdefault(body)
+      c += _rewrite_tuple_assign(body)
+      c += _rewrite_or_default(body)
+      c += _rewrite_flag_chain(body)
     n += c
     if not c:
       break
   return n
 
 
+# ----------------------------------------------------------------------------
+# closures that were lifted to module level (optionally bound with functools.partial)
+
+
+def _load_table():
+  try:
+    with open(TABLE) as f:
+      return json.load(f)
+  except Exception:
+    return {}
+
+
+def unlift(tree, modname, table=None):
+  """A reference closure  F.f  that was turned into a module-level function g
+  (its free variables becoming leading parameters, bound at the use sites with
+  functools.partial or passed straight through) is put back as a closure of F
+  under its reference name, so that the rules find it where they expect it."""
+  table = table if table is not None else _load_table()
+  ref_mod = table.get(modname)
+  if not ref_mod:
+    return 0
+  import difflib
+  from .canon import bindings
+  done = 0
+  top = {st.name: st for st in tree.body if isinstance(st, ast.FunctionDef)}
+  for gname, gfn in list(top.items()):
+    if '%s.%s' % (modname, gname) in ref_mod:
+      continue
+    a = gfn.args
+    if a.vararg or a.kwarg or a.posonlyargs or gfn.decorator_list:
+      continue
+    gparams = [x.arg for x in a.args]
+    # all references to g
+    refs = [n for n in ast.walk(tree) if isinstance(n, ast.Name) and n.id == gname and isinstance(n.ctx, ast.Load)]
+    if not refs or any(any(n is r for r in refs) for n in ast.walk(gfn)):
+      continue
+    # enclosing chains
+    parents = {}
+    for pnode in ast.walk(tree):
+      for c in ast.iter_child_nodes(pnode):
+        parents[c] = pnode
+
+    def chain(n):
+      out = []
+      while n in parents:
+        n = parents[n]
+        if isinstance(n, FN + (ast.ClassDef,)):
+          out.append(n)
+      return list(reversed(out))
+    sites = []
+    ok = True
+    for r in refs:
+      par = parents.get(r)
+      if isinstance(par, ast.Call) and par.func is r:
+        sites.append(('call', par, chain(r)))
+      elif isinstance(par, ast.Call) and ast.unparse(par.func) in ('functools.partial', 'partial') and par.args and par.args[0] is r:
+        sites.append(('partial', par, chain(r)))
+      else:
+        sites.append(('ref', r, chain(r)))
+    if not ok or not sites:
+      continue
+    # the innermost function common to all sites
+    common = None
+    for i in range(min(len(c) for _, _, c in sites)):
+      if all(c[i] is sites[0][2][i] for _, _, c in sites):
+        common = sites[0][2][:i + 1]
+    if not common or not isinstance(common[-1], FN):
+      continue
+    F = common[-1]
+    fq = modname + '.' + '.'.join(x.name for x in common)
+    have = {st.name for st in ast.walk(F) if isinstance(st, FN) and st is not F}
+    missing = [q.rsplit('.', 1)[1] for q in ref_mod if q.startswith(fq + '.') and '.' not in q[len(fq) + 1:] and q.rsplit('.', 1)[1] not in have]
+    if not missing:
+      continue
+    # parameters bound at every site to one and the same plain name
+    bound = {}
+    bad = False
+    for kind, call, _c in sites:
+      if kind == 'ref':
+        for pn in gparams:
+          bound[pn] = None
+        continue
+      argv = call.args[1:] if kind == 'partial' else call.args
+      if any(isinstance(x, ast.Starred) for x in argv) or any(k.arg is None for k in call.keywords):
+        bad = True
+        break
+      b = dict(zip(gparams, argv))
+      for k in call.keywords:
+        b[k.arg] = k.value
+      for pn in gparams:
+        e = b.get(pn)
+        v = e.id if isinstance(e, ast.Name) else None
+        if kind == 'partial' and pn in b and v is None:
+          bad = True
+        prev = bound.get(pn, '?')
+        bound[pn] = v if prev in ('?', v) else None
+      if kind == 'partial' and len(argv) + len(call.keywords) == 0:
+        bad = True
+    if bad:
+      continue
+    partial_bound = set()
+    for kind, call, _c in sites:
+      if kind == 'partial':
+        partial_bound |= set(gparams[:len(call.args) - 1]) | {k.arg for k in call.keywords}
+    fvis = _all_names(F) | {x.arg for x in F.args.args}
+    passthrough = [pn for pn in gparams if bound.get(pn) and (pn in partial_bound or bound[pn] in fvis)]
+    if partial_bound - set(passthrough):
+      continue
+    stored = _names_stored(ast.Module(body=gfn.body, type_ignores=[]))
+    if any(pn in stored or bound[pn] in stored for pn in passthrough):
+      continue
+    rest = [pn for pn in gparams if pn not in passthrough]
+    # choose the reference name
+    gb = [fp for n_, fp in bindings(gfn) if not fp.startswith('param:')]
+    best, score = None, -1.0
+    for m in missing:
+      ref = ref_mod['%s.%s' % (fq, m)]
+      rb = [fp for _n, fp in ref if not fp.startswith('param:')]
+      rparams = [n_ for n_, fp in ref if fp.startswith('param:')]
+      sc = difflib.SequenceMatcher(None, rb, gb, autojunk=False).ratio() if (rb or gb) else 1.0
+      if len(rparams) != len(rest):
+        sc -= 0.5
+      if any(kind == 'partial' and isinstance(parents.get(call), ast.Assign) and ast.unparse(parents[call].targets[0]) == m for kind, call, _c in sites):
+        sc += 1.0
+      if sc > score:
+        best, score = m, sc
+    if best is None or score < 0.5:
+      continue
+    # build the closure
+    newfn = copy.deepcopy(gfn)
+    newfn.name = best
+    keep = [i for i, x in enumerate(newfn.args.args) if x.arg in rest]
+    nd = len(newfn.args.defaults)
+    npar = len(newfn.args.args)
+    defaults = {newfn.args.args[npar - nd + j].arg: d for j, d in enumerate(newfn.args.defaults)}
+    newfn.args.args = [newfn.args.args[i] for i in keep]
+    newfn.args.defaults = [defaults[x.arg] for x in newfn.args.args if x.arg in defaults]
+    sub = _Subst({pn: ast.Name(id=bound[pn], ctx=ast.Load()) for pn in passthrough if bound[pn] != pn}, {})
+    newfn.body = [sub.visit(st) for st in newfn.body]
+    # rewrite the sites
+    placed = False
+    for kind, call, _c in sites:
+      if kind == 'ref':
+        call.id = best
+        continue
+      if kind == 'call':
+        b = dict(zip(gparams, call.args))
+        npos = len(call.args)
+        call.func = ast.copy_location(ast.Name(id=best, ctx=ast.Load()), call.func)
+        call.args = [x for pn, x in zip(gparams, call.args) if pn not in passthrough]
+        call.keywords = [k for k in call.keywords if k.arg not in passthrough]
+      else:
+        par = parents.get(call)
+        remaining = [x for pn, x in zip(gparams, call.args[1:]) if pn not in passthrough]
+        if remaining:
+          call.args = [ast.copy_location(ast.Name(id=best, ctx=ast.Load()), call)] + remaining
+          call.keywords = [k for k in call.keywords if k.arg not in passthrough]
+          continue
+        if isinstance(par, ast.Assign) and len(par.targets) == 1 and isinstance(par.targets[0], ast.Name) and par.targets[0].id == best and not placed:
+          # T = functools.partial(g, ...)  ->  def T(...): ...
+          for _o, _f, body in _bodies(F):
+            if par in body:
+              ast.copy_location(newfn, par)
+              body[body.index(par)] = newfn
+              placed = True
+          continue
+        new = ast.copy_location(ast.Name(id=best, ctx=ast.Load()), call)
+        for fld, val in ast.iter_fields(par):
+          if val is call:
+            setattr(par, fld, new)
+          elif isinstance(val, list):
+            for i, x in enumerate(val):
+              if x is call:
+                val[i] = new
+    if not placed:
+      idx = 0
+      if F.body and isinstance(F.body[0], ast.Expr) and isinstance(F.body[0].value, ast.Constant) and isinstance(F.body[0].value.value, str):
+        idx = 1
+      ast.copy_location(newfn, F.body[idx] if idx < len(F.body) else F)
+      F.body.insert(idx, newfn)
+    ast.fix_missing_locations(F)
+    tree.body.remove(gfn)
+    done += 1
+  return done
+
+
+def lifted_candidates(tree, modname, table=None):
+  """Names of new module-level functions that look like a reference closure that is missing now."""
+  table = table if table is not None else _load_table()
+  ref_mod = table.get(modname)
+  if not ref_mod:
+    return set()
+  import difflib
+  from .canon import bindings, _functions
+  cur = {q for q, _f in _functions(tree, modname)}
+  missing = [q for q in ref_mod if q not in cur and q.rsplit('.', 1)[0] in ref_mod]
+  out = set()
+  if not missing:
+    return out
+  for st in tree.body:
+    if isinstance(st, ast.FunctionDef) and '%s.%s' % (modname, st.name) not in ref_mod:
+      gb = [fp for _n, fp in bindings(st) if not fp.startswith('param:')]
+      for q in missing:
+        rb = [fp for _n, fp in ref_mod[q] if not fp.startswith('param:')]
+        if (rb or gb) and difflib.SequenceMatcher(None, rb, gb, autojunk=False).ratio() >= 0.5:
+          out.add(st.name)
+  return out
+
+
+def post_canon(tree, modname):
+  """Second stage, run after the local names were mapped back to the reference names."""
+  a = inline_temps(tree, modname)
+  b = loop_forms(tree)
+  c = idioms(tree) if (a or b) else 0
+  ast.fix_missing_locations(tree)
+  return a, b + c
+
+
 def normalize(tree, modname):
   """Returns (helpers_inlined, idioms_rewritten)."""
   if os.environ.get('GINSA_NO_NORMALIZE'):
     return 0, 0
-  a = Inliner(tree, modname).run()
+  a = unlift(tree, modname)
+  cands = lifted_candidates(tree, modname)
+  if cands:
+    # helpers around a lifted closure are inlined first, so that all uses of the closure are back in one function
+    a += Inliner(tree, modname, skip=cands).run()
+    a += unlift(tree, modname)
+  a += Inliner(tree, modname).run()
   b = idioms(tree)
+  if a:
+    b += loop_forms(tree)
   ast.fix_missing_locations(tree)
   return a, b
